@@ -20,6 +20,15 @@ Call == /\ ncalls < MaxCalls
 Next == Apply \/ Call
 Spec == Init /\ [][Next]_vars
 
+\* ---- unbounded nesting: canonicity of a backend list is preserved by EVERY allowed Apply (checked over all canonical
+\* lists, not only those reachable within MaxMods), so it holds for chains of any length
+Canonical(b) == EachOnce(b) /\ UsBeforeQ(b) /\ LastIsLast(b)
+AllLists == UNION {[1 .. n -> Kinds] : n \in 0 .. 4}
+AllowedOn(b, k) == LET S == {b[i] : i \in 1 .. Len(b)} IN S \cap LastKinds = {} /\ (k = "us" => "us" \notin S) /\ (k \in QKinds => S \cap QKinds = {})
+NewBackends(b, k) == IF k = "us" THEN OrderBackends(Append(b, k)) ELSE Append(b, k)
+OneQ(b) == Cardinality({i \in 1 .. Len(b) : b[i] \in QKinds}) <= 1      \* the quantifier: at most one format simulation
+ASSUME CanonicityInductive == \A b \in AllLists : \A k \in Kinds : (Canonical(b) /\ OneQ(b) /\ AllowedOn(b, k)) => (Canonical(NewBackends(b, k)) /\ OneQ(NewBackends(b, k)))
+
 OriginalUntouched == mods[1] = [Original EXCEPT !.calls = mods[1].calls]
 PipelineCanonical == \A m \in 1 .. Len(mods) : LET b == mods[m].backends IN EachOnce(b) /\ UsBeforeQ(b) /\ LastIsLast(b)
 \* the pipeline in effect at any call is the module's own backend list (never a stale one inherited from its source)
